@@ -340,3 +340,185 @@ class Hooks:
 
 
 HOOKS = Hooks()
+
+
+# ============================================================================= launch recorder (M-LAUNCH)
+
+
+class LaunchRecorder:
+    """Wraps bempp_cl.core.numba_kernels.select_numba_kernels: the *assembly* function handed to the callers is
+    replaced by a Python shim that records / validates the real launch arguments and then calls the real
+    dispatcher. The kernel function is passed through untouched (it is consumed inside JIT code).
+
+    Per launch: pre-launch bounds validation of every index argument against the array extents (the production
+    kernels are compiled with boundscheck=False), and for regular launches the write-set disjointness of the
+    test elements processed concurrently (lockset-style race monitor)."""
+
+    def __init__(self):
+        self.installed = False
+        self.counts = {}
+        self.problems = []
+        self.lock = threading.Lock()
+        self.max_colours = 0
+        self.regular_launches = 0
+        self.elements_in_regular_launches = 0
+        self.max_parallel_elements = 0
+        self.keep_log = False
+        self.log = []
+
+    def install(self):
+        if self.installed:
+            return self
+        import bempp_cl.core.numba_kernels as nk
+
+        real_select = nk.select_numba_kernels
+        rec = self
+
+        def select(operator_descriptor, mode="regular"):
+            fn, kern = real_select(operator_descriptor, mode=mode)
+            name = getattr(fn, "__name__", None) or getattr(getattr(fn, "py_func", None), "__name__", "?")
+            kname = getattr(kern, "__name__", None) or getattr(getattr(kern, "py_func", None), "__name__", "?")
+
+            def shim(*args):
+                rec._before(mode, name, kname, args)
+                return fn(*args)
+
+            shim.__name__ = "shim_" + name
+            shim.__wrapped__ = fn
+            return shim, kern
+
+        select.__wrapped__ = real_select
+        nk.select_numba_kernels = select
+        self.installed = True
+        return self
+
+    def _add(self, mech, msg):
+        with self.lock:
+            if len(self.problems) < 200:
+                self.problems.append((mech, msg))
+
+    def drain(self):
+        with self.lock:
+            out, self.problems = self.problems, []
+        return out
+
+    def _before(self, mode, name, kname, a):
+        with self.lock:
+            key = "%s:%s" % (mode, name)
+            self.counts[key] = self.counts.get(key, 0) + 1
+        try:
+            if mode == "regular":
+                self._regular(name, kname, a)
+            elif mode == "singular":
+                self._singular(name, kname, a)
+            elif mode == "sparse":
+                self._sparse(name, kname, a)
+            elif mode == "potential":
+                self._potential(name, kname, a)
+        except Exception as e:  # noqa: BLE001
+            self._add("launch:monitor_exception", "%s %s: %r" % (mode, name, e))
+
+    def _regular(self, name, kname, a):
+        (tgd, sgd, nshape_test, nshape_trial, test_elements, trial_elements, tmult, smult, tdofs, sdofs, tnm, snm,
+         qp, qw, kern, kpar, grids_identical, tshape, sshape, result) = a
+        te = np.asarray(test_elements).astype(np.int64)
+        se = np.asarray(trial_elements).astype(np.int64)
+        tdofs = np.asarray(tdofs).astype(np.int64)
+        sdofs = np.asarray(sdofs).astype(np.int64)
+        nte = tgd.elements.shape[1]
+        nse = sgd.elements.shape[1]
+        with self.lock:
+            self.regular_launches += 1
+            self.elements_in_regular_launches += len(te)
+            self.max_parallel_elements = max(self.max_parallel_elements, len(te))
+            if self.keep_log:
+                self.log.append({"fn": name, "kernel": kname, "ntest": int(len(te)), "ntrial": int(len(se)),
+                                 "grids_identical": bool(grids_identical), "result": list(result.shape), "dtype": str(result.dtype)})
+        if len(te) and (te.min() < 0 or te.max() >= nte or te.max() >= tdofs.shape[0] or te.max() >= np.asarray(tmult).shape[0]):
+            self._add("launch:test_element_out_of_range", "%s: test element index %d for %d elements" % (name, te.max(), nte))
+            return
+        if len(se) and (se.min() < 0 or se.max() >= nse or se.max() >= sdofs.shape[0] or se.max() >= np.asarray(smult).shape[0]):
+            self._add("launch:trial_element_out_of_range", "%s: trial element index %d for %d elements" % (name, se.max(), nse))
+            return
+        if tdofs.shape[1] != nshape_test or sdofs.shape[1] != nshape_trial:
+            self._add("launch:shape_function_count", "%s: dof maps have %d/%d columns for %d/%d shape functions" % (name, tdofs.shape[1], sdofs.shape[1], nshape_test, nshape_trial))
+        if len(te) and tdofs[te].max() >= result.shape[0]:
+            self._add("launch:row_out_of_bounds", "%s: global test dof %d >= %d rows" % (name, tdofs[te].max(), result.shape[0]))
+        if len(se) and sdofs[se].max() >= result.shape[1]:
+            self._add("launch:col_out_of_bounds", "%s: global trial dof %d >= %d cols" % (name, sdofs[se].max(), result.shape[1]))
+        if len(np.asarray(tnm)) < nte or len(np.asarray(snm)) < nse:
+            self._add("launch:normal_multipliers_length", name)
+        if np.asarray(qp).shape[1] != len(np.asarray(qw)):
+            self._add("launch:quadrature_shape", name)
+        # write-set monitor: the prange loop runs over test elements; rows written by element e are tdofs[e, :]
+        # (zero-multiplier artificial dofs included: the kernel executes += on them too)
+        owner = {}
+        for e in te.tolist():
+            for d in set(tdofs[e].tolist()):
+                o = owner.get(d)
+                if o is not None and o != e:
+                    self._add("launch:write_set_overlap", "%s: test elements %d and %d are processed in the same parallel launch and both write row %d"
+                              % (name, o, e, d))
+                    return
+                owner[d] = e
+        if len(set(te.tolist())) != len(te):
+            self._add("launch:write_set_overlap", "%s: a test element appears twice in one launch" % name)
+
+    def _singular(self, name, kname, a):
+        (gd, tp, sp, qw, te, se, toff, soff, woff, nq, tnm, snm, nshape_test, nshape_trial, tshape, sshape, kern, kpar, result) = a
+        te = np.asarray(te).astype(np.int64)
+        se = np.asarray(se).astype(np.int64)
+        toff = np.asarray(toff).astype(np.int64)
+        soff = np.asarray(soff).astype(np.int64)
+        woff = np.asarray(woff).astype(np.int64)
+        nq = np.asarray(nq).astype(np.int64)
+        n = len(te)
+        ne = gd.elements.shape[1]
+        if self.keep_log:
+            with self.lock:
+                self.log.append({"fn": name, "kernel": kname, "pairs": int(n), "result": int(result.size)})
+        if not (len(se) == len(toff) == len(soff) == len(woff) == len(nq) == n):
+            self._add("launch:singular_array_lengths", name)
+            return
+        if result.size != nshape_test * nshape_trial * n:
+            self._add("launch:singular_result_size", "%s: %d slots for %d pairs x %d x %d" % (name, result.size, n, nshape_test, nshape_trial))
+        if n == 0:
+            return
+        if te.max() >= ne or se.max() >= ne:
+            self._add("launch:singular_element_out_of_range", name)
+        if (toff + nq).max() > np.asarray(tp).shape[1] or (soff + nq).max() > np.asarray(sp).shape[1]:
+            self._add("launch:singular_points_out_of_bounds", "%s: offset+npoints exceeds the point table" % name)
+        if (woff + nq).max() > len(np.asarray(qw)):
+            self._add("launch:singular_weights_out_of_bounds", "%s: offset+npoints exceeds the weight table" % name)
+
+    def _sparse(self, name, kname, a):
+        (gd, nshape_test, nshape_trial, elements, qp, qw, tnm, snm, tmult, smult, tsh, ssh, tev, sev, kern, result) = a
+        el = np.asarray(elements).astype(np.int64)
+        ne = gd.elements.shape[1]
+        if result.size != nshape_test * nshape_trial * len(el):
+            self._add("launch:sparse_result_size", "%s: %d slots for %d elements x %d x %d" % (name, result.size, len(el), nshape_test, nshape_trial))
+        if len(el) and (el.max() >= ne or el.max() >= np.asarray(tmult).shape[0] or el.max() >= np.asarray(smult).shape[0]):
+            self._add("launch:sparse_element_out_of_range", name)
+        if len(set(el.tolist())) != len(el):
+            self._add("launch:write_set_overlap", "%s: an element appears twice in one sparse launch" % name)
+
+    def _potential(self, name, kname, a):
+        (dtype, rtype, kdim, points, x, gd, qp, qw, nshape, shapeset, kern, kpar, nm, support_elements) = a
+        se = np.asarray(support_elements).astype(np.int64)
+        ne = gd.elements.shape[1]
+        if len(se) and se.max() >= ne:
+            self._add("launch:potential_element_out_of_range", name)
+        if len(se) and len(np.asarray(x)) < nshape * (se.max() + 1):
+            self._add("launch:potential_coefficients_out_of_bounds", "%s: coefficient vector of length %d read at %d" % (name, len(x), nshape * (se.max() + 1) - 1))
+        if np.asarray(points).shape[0] != 3:
+            self._add("launch:potential_points_shape", name)
+        if len(np.asarray(nm)) < ne:
+            self._add("launch:normal_multipliers_length", name)
+
+    def summary(self):
+        return {"launches": dict(self.counts), "regular_launches": self.regular_launches,
+                "test_elements_in_regular_launches": self.elements_in_regular_launches,
+                "max_test_elements_in_one_launch": self.max_parallel_elements}
+
+
+LAUNCH = LaunchRecorder()
